@@ -38,6 +38,7 @@ pub fn unit_name(plan: &Plan, u: usize) -> String {
         Some(CmdKind::Execute { .. }) => "execute".into(),
         Some(CmdKind::LongData { .. }) => "long_data".into(),
         Some(CmdKind::Raw(_)) => "raw".into(),
+        Some(CmdKind::Unsupported(_)) => "unsupported command".into(),
         None => "?".into(),
     }
 }
